@@ -67,6 +67,7 @@ func (s *stream) commit(event *Event) {
 		return
 	}
 	s.commitSeq.Store(event.SeqID)
+	verifTrace(vtStreamCommit, s, int64(event.SeqID), 0, 0, 0)
 
 	if s.isDetaching {
 		s.tryDetach()
@@ -81,6 +82,7 @@ func (s *stream) tryDetach() {
 
 	s.isAttached = false
 	s.isDetaching = false
+	verifTrace(vtStreamDetach, s, verifBool(s.first != nil), 0, 0, 0)
 
 	if s.first != nil {
 		s.streamer.makeCharged(s)
@@ -99,6 +101,7 @@ func (s *stream) attach() {
 		logger.Panicf("why attach? stream is empty")
 	}
 
+	verifTrace(vtStreamAttach, s, 0, 0, 0, 0)
 	s.isAttached = true
 	s.mu.Unlock()
 }
@@ -111,6 +114,7 @@ func (s *stream) put(event *Event) uint64 {
 	event.stream = s
 	event.stage = eventStageStream
 	event.SeqID = seqID
+	verifTrace(vtStreamPut, s, int64(seqID), int64(event.SourceID), event.Offset, int64(event.kind))
 	if s.first == nil {
 		s.last = event
 		s.first = event
@@ -135,6 +139,7 @@ func (s *stream) blockGet() *Event {
 	for s.first == nil {
 		s.blockTime = time.Now()
 		s.streamer.makeBlocked(s)
+		verifTrace(vtStreamBlock, s, 0, 0, 0, 0)
 		s.cond.Wait()
 		s.streamer.resetBlocked(s)
 	}
@@ -150,6 +155,7 @@ func (s *stream) instantGet() *Event {
 		logger.Panicf("why instant get? stream isn't attached")
 	}
 	if s.first == nil {
+		verifTrace(vtStreamLeave, s, int64(s.awaySeq), int64(s.commitSeq.Load()), 0, 0)
 		s.leave()
 		s.mu.Unlock()
 
@@ -183,6 +189,7 @@ func (s *stream) tryUnblock() bool {
 	}
 
 	timeoutEvent := newTimeoutEvent(s)
+	verifTrace(vtStreamTimeout, s, int64(timeoutEvent.SeqID), int64(s.awaySeq), 0, 0)
 	s.last = timeoutEvent
 	s.first = timeoutEvent
 
@@ -207,6 +214,7 @@ func (s *stream) get() *Event {
 
 	if event != nil {
 		s.awaySeq = event.SeqID
+		verifTrace(vtStreamGet, s, int64(event.SeqID), int64(event.kind), 0, 0)
 		event.stage = eventStageProcessor
 		s.len--
 	}
